@@ -465,6 +465,7 @@ def plan_lists(ctx):
     ctx.model("mcord-a", "MCOrd", ord_consts(5 if q else 7), ORD_INV)
     ctx.model("mckey-a", "MCKey", key_consts(3, 3), KEY_INV)
     ctx.model("mclist", "MCKeyList", {"Keys": keyset(3), "MaxTime": 3 if q else 4}, ["MinExpOK", "Refinement"])
+    ctx.model("mcordlist", "MCOrdList", {"Keys": keyset(6 if q else 8), "StepMode": '"fixed"'}, ["Inv"], view=False)
     futs = ord_cover_jobs(ctx, ORD_LISTS if not q else ["maplist-i32", "setlist-str"], 4, [0], 1 if q else 2, limit=40 if q else None)
     futs += key_cover_jobs(ctx, ["keylist"], 3, 3 if not q else 2, [0], 2 if q else 4, limit=60 if q else 300)
     futs += random_jobs(ctx, ORD_LISTS, 1 if q else 6, {"keys": 10, "steps": 2000 if q else 10000, "seglen": 90})
@@ -803,6 +804,7 @@ def plan_c10(ctx):
     ctx.model("mcord-a", "MCOrd", ord_consts(6 if q else 8), ORD_INV)
     ctx.model("mckey-a", "MCKey", key_consts(3, 3), KEY_INV)
     ctx.model("mclist", "MCKeyList", {"Keys": keyset(3), "MaxTime": 3}, ["MinExpOK", "Refinement"])
+    ctx.model("mcordlist", "MCOrdList", {"Keys": keyset(6), "StepMode": '"fixed"'}, ["Inv"], view=False)
     seg_models(ctx, heap=True, layout=True)
     allord = ORD_TREES_MAP + ORD_TREES_SET + ORD_LISTS
     futs = ord_cover_jobs(ctx, ["maptree-i32", "settree-i32", "setlist-i32", "maplist-str"] if q else allord, 4 if q else 5, [0, 1] if q else [0, 1, 8, 33], 1,
@@ -933,6 +935,23 @@ def selftest():
     K.append(("set is_empty", "settree", "EMPTY", okq("empty"), lambda e: e.update(res=1 - e["res"])))
     K.append(("set link corrupted", "settree", "WF", lambda e: "snap" in e and e.get("ev") == "op" and len(stored(e)) >= 2,
               lambda e: e["snap"]["nd"][e["snap"]["root"]].__setitem__(0, 3)))
+    def share_child(e):
+        # two parents link to the same child: the root's left child is also made its right child
+        r = e["snap"]["root"]
+        nd = e["snap"]["nd"]
+        nd[r][2] = nd[r][1] if nd[r][1] >= 0 else nd[r][2]
+        nd[r][1] = nd[r][2]
+
+    def make_cycle(e):
+        # a leaf's left link points back to the root
+        nd = e["snap"]["nd"]
+        leaf = next(i for i in stored(e) if nd[i][1] == -1 and nd[i][2] == -1 and i != e["snap"]["root"])
+        nd[leaf][1] = e["snap"]["root"]
+
+    K.append(("set child shared by two links", "settree", "WF", lambda e: "snap" in e and e.get("ev") == "op" and len(stored(e)) >= 3, share_child))
+    K.append(("set cycle through the root", "settree", "WF", lambda e: "snap" in e and e.get("ev") == "op" and len(stored(e)) >= 3, make_cycle))
+    K.append(("set link out of range", "settree", "WF", lambda e: "snap" in e and e.get("ev") == "op" and len(stored(e)) >= 2,
+              lambda e: e["snap"]["nd"][e["snap"]["root"]].__setitem__(1, 10**6)))
     K.append(("set stored payload", "settree", "REFINE", lambda e: e.get("op") == "ins" and "snap" in e,
               lambda e: e["snap"]["nd"][e["snap"]["root"]].__setitem__(5, 777)))
     K.append(("list handle position", "maplist", "HPOS", lambda e: e.get("op") == "fil" and e.get("res", -1) >= 1, lambda e: e.update(res=e["res"] - 1)))
@@ -985,8 +1004,8 @@ def selftest():
         for e in evs2:
             f.write(json.dumps(e, separators=(",", ":")) + "\n")
     v = tlc_trace("TraceKey", out, out + ".meta")
-    log(f"  snapshots removed from all events: {len(v['viols'])} predicate violations reported (binding is not vacuous)" )
-    bad += 0 if v["viols"] else 1
+    log(f"  snapshots removed from all events: {len(v['breaches'])} 'snapshot missing' reports (a check would exit 2: the binding is not vacuous)")
+    bad += 0 if v["breaches"] else 1
     log(f"selftest: {len(K) + 1 - bad}/{len(K) + 1} corruptions rejected")
     with open(os.path.join(VERIF, "evidence", "selftest.txt"), "w") as f:
         for title, tag, verdict, at in results:
